@@ -698,6 +698,9 @@ REGRESSION = [
     ("js", "no-process-global", "\"use strict\";\nprocess.exit();"), ("ts", "no-process-global", "import a from 'b'\nprocess.exit();"),
     ("ts", "verbatim-module-syntax", "import { type as as B } from 'x';"), ("ts", "verbatim-module-syntax", "type as = 1; type D = 2; export { type as as C, D };"),
     ("ts", "verbatim-module-syntax", "import { type as as B, C } from 'x'; type T = B | C;"), ("ts", "verbatim-module-syntax", "import { \"a-b\" as C, D } from 'x'; type T = C; D();"),
+    ("ts", "no-node-globals", "// deno-lint-ignore no-node-globals\nconst a = setImmediate;\nconst b = Buffer;\n"),
+    ("js", "no-process-global", "#!/usr/bin/env node\n// deno-lint-ignore no-process-global\nprocess.exit();\nprocess.env;\n"),
+    ("ts", "no-node-globals", "/* header */ // deno-lint-ignore\nglobal.x;\r\nBuffer.from('a');"),
     ("ts", "no-window", "function f(globalThis) { window.fetch(); }"), ("ts", "no-window-prefix", "window.fetch(); window[\"console\"]; window[`crypto`];"),
 ]
 
@@ -1171,6 +1174,28 @@ def c13(ctx):
         else:
             p.update(src=rng.choice(SCRIPT_ONLY) + "\n" + p["src"], media="js", sites=None, origin="generated-script-only", script_only=True)
         progs.append(p)
+    # a line-level ignore directive above the first line (or below a shebang): what the directive is attached to must survive a fix
+    base_for_dir = [q for q in progs if q["origin"] in ("generated", "repo-test")]
+    for q in rng.sample(base_for_dir, min(len(base_for_dir), 400 if ctx.tier == "quick" else 6000)):
+        word = rng.choice([q["rule"], q["rule"], "no-explicit-any", "", q["rule"] + " no-unused-vars"])
+        line = "// deno-lint-ignore" + (" " + word if word else "") + rng.choice(["\n", "\n", "\r\n"])
+        src = q["src"]
+        if src.startswith("#!"):
+            k = src.find("\n") + 1
+            if k == 0:
+                continue
+            src2 = src[:k] + line + src[k:]
+        else:
+            src2 = line + src
+        progs.append({"src": src2, "media": q["media"], "rule": q["rule"], "sites": None, "origin": "directive-above-first-line"})
+    for _ in range(60 if ctx.tier == "quick" else 1500):
+        rule, names = rng.choice([("no-process-global", ["process"]), ("no-node-globals", NODE_NAMES)])
+        head = rng.choice(["", "", "#!/usr/bin/env node\n", "/* h */ ", "// c\n", "\n\n", "  "])
+        word = rng.choice([rule, rule, "", "no-explicit-any", rule + " no-var"])
+        eol = rng.choice(["\n", "\r\n"])
+        body = eol.join(rng.choice(G_FLAGGED).replace("@", rng.choice(names)) for _ in range(rng.randint(2, 4)))
+        progs.append({"src": head + "// deno-lint-ignore" + (" " + word if word else "") + eol + rng.choice(["", "  "]) + body + eol,
+                      "media": rng.choice(["ts", "js", "mjs", "tsx"]), "rule": rule, "sites": None, "origin": "directive-above-first-statement"})
     results = lib.run_vh("lint", [{"src": p["src"], "media": p["media"], "rules": [p["rule"]]} for p in progs], per_case_timeout=5)
     run_builds(progs)
     # ---- correspondence: builders
